@@ -203,3 +203,19 @@ Theorem C03_gen_sanitized_none_inside : forall nm cwd0 cwd o, PathFsGen.fs_of cw
   proot (PathFsGen.fs_of o) = 0 /\ nodd (pparts (PathFsGen.fs_of o)).
 Proof. exact PathFsGen.gen_sanitized_none_inside. Qed.
 Print Assumptions C03_gen_sanitized_none_inside.
+
+(* ---- third wave (stage 8b): helpers.is_real_path_inside as translated on this run.  The generated function takes what
+   os.path.realpath(target) answered (real0 : str) in place of target; os.path.normcase is the identity on posix.  For real paths
+   given as lists of names (not empty, no "/"), rendered "/" + "/".join(names) ("/" for the root) the way os.path.realpath
+   returns them, its verdict is the component-wise prefix test of FS.real_inside: the check the theorems above rely on. ---- *)
+Theorem C03_gen_is_real_path_inside : forall r root : list str,
+  Forall PathFsGen.name_ok r -> Forall PathFsGen.name_ok root ->
+  HelpersPath2.is_real_path_inside (PathFsGen.render r) (PathFsGen.render root) = Ok (prefixb root r).
+Proof. exact PathFsGen.gen_is_real_path_inside. Qed.
+Print Assumptions C03_gen_is_real_path_inside.
+
+Theorem C03_gen_is_real_path_inside_fs : forall f cwd p (r root : list str), py_realpath f cwd p = Some r ->
+  Forall PathFsGen.name_ok r -> Forall PathFsGen.name_ok root ->
+  HelpersPath2.is_real_path_inside (PathFsGen.render r) (PathFsGen.render root) = Ok (real_inside f cwd root p).
+Proof. exact PathFsGen.gen_is_real_path_inside_fs. Qed.
+Print Assumptions C03_gen_is_real_path_inside_fs.
